@@ -8,6 +8,8 @@
 * ``scripted_logits`` -- the pure function (numpy) behind the table.
 * ``instance_keys`` / ``state_key`` -- the keys the table is indexed by (from the row's own data).
 * ``ProcessLogitsTap`` -- records every ``rl4co.utils.decoding.process_logits`` call.
+* ``StrategyCapture`` -- keeps the ``DecodingStrategy`` object a policy call created (per-step buffers,
+  ``BeamSearch.beam_path``).
 * ``SamplerFault`` -- makes ``torch.multinomial`` / ``Tensor.multinomial`` return a zero-probability
   index for a chosen row for the next j calls (the fault ``DecodingStrategy.sampling``'s retry loop
   was written for).
@@ -359,8 +361,73 @@ class ProcessLogitsTap:
 
 
 # ------------------------------------------------------------------------------------------------
+# strategy capture
+# ------------------------------------------------------------------------------------------------
+class StrategyCapture:
+    """Context manager that keeps the ``DecodingStrategy`` objects which policies create through
+    ``get_decoding_strategy`` (``ConstructivePolicy.forward`` builds one per call and drops it).  Gives
+    oracles read access to the strategy's per-step buffers (``actions``, ``logprobs``) and, for
+    ``BeamSearch``, to ``beam_path`` / ``parent_beam_logprobs``.  ``last`` = most recent strategy."""
+
+    def __init__(self):
+        self.strategies = []
+        self._patched = []
+        self._orig = None
+
+    @property
+    def last(self):
+        return self.strategies[-1] if self.strategies else None
+
+    def __enter__(self):
+        import rl4co.utils.decoding as dec
+
+        orig = dec.get_decoding_strategy
+        self._orig = orig
+        cap = self
+
+        def get_decoding_strategy(*args, **kwargs):
+            st = orig(*args, **kwargs)
+            cap.strategies.append(st)
+            return st
+
+        get_decoding_strategy.__wrapped__ = orig
+        for name in sorted(sys.modules):
+            mod = sys.modules[name]
+            if mod is None or not name.startswith("rl4co"):
+                continue
+            if getattr(mod, "__dict__", {}).get("get_decoding_strategy") is orig:
+                mod.__dict__["get_decoding_strategy"] = get_decoding_strategy
+                self._patched.append(mod)
+        return self
+
+    def __exit__(self, *exc):
+        for mod in self._patched:
+            mod.__dict__["get_decoding_strategy"] = self._orig
+        self._patched = []
+        return False
+
+
+# ------------------------------------------------------------------------------------------------
 # sampler fault
 # ------------------------------------------------------------------------------------------------
+_SAMPLER_WRAPPERS = '''
+def multinomial(input, num_samples, replacement=False, *, generator=None, out=None):
+    kw = {} if generator is None else {"generator": generator}
+    res = fn(input, num_samples, replacement, **kw)
+    res = fault._maybe_fault(input, num_samples, res)
+    if out is not None:
+        out.copy_(res)
+        return out
+    return res
+
+
+def tensor_multinomial(self, num_samples, replacement=False, *, generator=None):
+    kw = {} if generator is None else {"generator": generator}
+    res = method(self, num_samples, replacement, **kw)
+    return fault._maybe_fault(self, num_samples, res)
+'''
+
+
 class SamplerFault:
     """Context manager wrapping ``torch.multinomial`` and ``torch.Tensor.multinomial``.
 
@@ -424,24 +491,13 @@ class SamplerFault:
     def __enter__(self):
         self._orig_fn = torch.multinomial
         self._orig_method = torch.Tensor.multinomial
-        fault, fn, method = self, self._orig_fn, self._orig_method
-
-        def multinomial(input, num_samples, replacement=False, *, generator=None, out=None):  # noqa: A002
-            kw = {} if generator is None else {"generator": generator}
-            res = fn(input, num_samples, replacement, **kw)
-            res = fault._maybe_fault(input, num_samples, res)
-            if out is not None:
-                out.copy_(res)
-                return out
-            return res
-
-        def tensor_multinomial(self, num_samples, replacement=False, *, generator=None):
-            kw = {} if generator is None else {"generator": generator}
-            res = method(self, num_samples, replacement, **kw)
-            return fault._maybe_fault(self, num_samples, res)
-
-        torch.multinomial = multinomial
-        torch.Tensor.multinomial = tensor_multinomial
+        # The two thin wrappers are compiled under a pseudo file name: an exception raised by torch's
+        # multinomial itself (e.g. NaN probabilities) must be attributed to the library frame that
+        # called it, not to this seam (the kernel classifies by the innermost /repo-or-/verif frame).
+        ns = {"fault": self, "fn": self._orig_fn, "method": self._orig_method}
+        exec(compile(_SAMPLER_WRAPPERS, "/rlsim-seam/sampler-fault", "exec"), ns)
+        torch.multinomial = ns["multinomial"]
+        torch.Tensor.multinomial = ns["tensor_multinomial"]
         return self
 
     def __exit__(self, *exc):
